@@ -1107,6 +1107,18 @@ func TestVerifC09(t *testing.T) {
 		[]func(h *c09Harness) *c09Label{connect, frame(cmd(21, "", int(c09Connect)))}, // second connect refused by the hook: error, not 3501
 		[]func(h *c09Harness) *c09Label{connect, frame(cmd(21, "", int(c09Ping)))},
 	)
+	// frames with an undecodable rest after one / two good commands, and unsubscribes of channels the
+	// client never held (answered like any other)
+	frameBad := func(cmds ...*protocol.Command) func(h *c09Harness) *c09Label {
+		return func(h *c09Harness) *c09Label { return &c09Label{Kind: "frame", Raw: c09Encode(h.proto, cmds, true)} }
+	}
+	corpus = append(corpus,
+		[]func(h *c09Harness) *c09Label{connect, frameBad(cmd(2, "", int(c09Rpc))), frame(cmd(3, "", int(c09Rpc)))},
+		[]func(h *c09Harness) *c09Label{connect, frameBad(cmd(2, "", int(c09Rpc)), cmd(3, "a", int(c09Subscribe)))},
+		[]func(h *c09Harness) *c09Label{frameBad(cmd(1, "", int(c09Connect)))},
+		[]func(h *c09Harness) *c09Label{connect, frame(cmd(2, "a", int(c09Unsubscribe))), frame(cmd(3, "b", int(c09Unsubscribe)), cmd(4, "", int(c09Rpc)))},
+		[]func(h *c09Harness) *c09Label{connect, frame(cmd(2, "a", int(c09Subscribe))), frame(cmd(3, "a", int(c09Unsubscribe))), frame(cmd(4, "a", int(c09Unsubscribe)))},
+	)
 	for i := 0; i < w.N; i++ {
 		if !w.Want(i) {
 			continue
